@@ -561,6 +561,10 @@ impl<'a> Driver<'a> {
                     let _ = f.can_proceed();
                     let _ = f.method();
                     let _ = f.version();
+                    let _ = f.uri();
+                    // the header view is a query too: it may run the request analysis early but must
+                    // not change what goes on the wire
+                    let _ = f.headers_map();
                 }
                 if f.can_proceed() {
                     rec.call();
